@@ -49,6 +49,8 @@ structure Task where
   schedHist : List Nat := []    -- all non-zero times given to Schedule
   byQh : Bool := false          -- current execution was started by the queue handler
   tmo : Bool := false           -- the slot watcher of the current execution gave up (maxExecutionWait)
+  qAt : Nat := 0                -- clock reading of the last queueing call that armed the max-delay entry
+  qMd : Nat := 0                -- the max delay that call used
 deriving Repr
 
 inductive QH where
@@ -132,7 +134,8 @@ def schedWith (s : St) (t tm : Nat) : List Nat :=
 /-- `prepForQueueing` of an active task, record part: arms the max-delay entry if `maxDelay != 0`. -/
 def Task.prepped (k : Task) (now : Nat) : Task :=
   if k.maxDelay != 0 then
-    { k with executeAt := now + k.maxDelay, eaUser := false, overtime := true, inS := true }
+    { k with executeAt := now + k.maxDelay, eaUser := false, overtime := true, inS := true,
+             qAt := now, qMd := k.maxDelay }
   else k
 
 /-- `prepForQueueing` of an active task, schedule part. -/
@@ -241,13 +244,18 @@ def released (s : St) (w : Watcher) : Bool :=
   let k := s.tasks w.t
   decide (w.gen < k.gen) || (w.gen == k.gen && k.ctxDone)
 
+/-- The fetch section of `taskScheduleHandler` on the first entry of the schedule. The order in which the
+    section tests "not yet due" (`now.Before(t.executeAt)`) and `t.overtime`, and what it does in each case,
+    is `PB.Gen.Tasks.fetchOut`, regenerated from the source on every run. -/
 def fetchRes (s : St) : FetchRes :=
   match s.sched with
   | [] => .none
   | t :: _ =>
     let k := s.tasks t
-    if s.now < k.executeAt then .notDue t
-    else if k.overtime then .run t else .asap t
+    match PB.Gen.Tasks.fetchOut (decide (s.now < k.executeAt)) k.overtime with
+    | .notDue => .notDue t
+    | .run => .run t
+    | .asap => .asap t
 
 def qhHolds (s : St) (t : Nat) : Bool := s.qh == .hold t
 def shHoldsAsap (s : St) (t : Nat) : Bool := s.sh == .holdAsap t
